@@ -1846,7 +1846,9 @@ GENERATORS["MixedGen"] = gen_mixed
 OPN1 = {"Read_memory": "ORM", "Write_memory": "OWM", "Discard_memory": "ODM", "Read_disk": "ORD", "Write_disk": "OWD", "Discard_disk": "ODD",
         "Write_Forward_memory": "OWFM", "Discard_Forward_memory": "ODFM"}
 OPN2 = {"Forward": "OF", "Backward": "OB"}
-SEQ_FUEL = {("disk_revolve", "revolve"): "(Z.to_nat (2 * l + 4))", ("periodic_disk_revolve", "revolve"): "(Z.to_nat (2 * l + 4))"}
+SEQ_FUEL = {("disk_revolve", "revolve"): "(Z.to_nat (2 * l + 4))", ("periodic_disk_revolve", "revolve", "l - current_task"): "(Z.to_nat (2 * l + 4))",
+            ("periodic_disk_revolve", "revolve", "mx - 1"): "(Z.to_nat (2 * mx + 4))"}
+WHILE_FUEL = {"periodic_disk_revolve": "(Z.to_nat l)"}      # a bound on the iterations of its two `while` loops (each moves current_task by mx >= 1 within 0..l)
 SEQ_PREAMBLE = {
     "revolve": ("l, cm, rd, wd, fwd_cost, bwd_cost, opt_0=None",
                 "params = revolver_parameters(wd, rd, fwd_cost, bwd_cost)\nparameters = dict(params)\nif opt_0 is None:\n    opt_0 = get_opt_0_table(l, cm, fwd_cost, bwd_cost)\n"
@@ -1857,6 +1859,8 @@ SEQ_PREAMBLE = {
                      "    opt_1d = get_opt_1d_table(l, cm, ub, uf, rd, one_read_disk, opt_0=opt_0)\nif opt_inf is None:\n"
                      "    opt_inf = get_opt_inf_table(l, cm, uf, ub, rd, wd, one_read_disk, opt_0=opt_0, opt_1d=opt_1d)\n"
                      "sequence = Sequence(Function('Disk-Revolve', l, cm), concat=parameters['concat'])\noperation = partial(Op, params=parameters)"),
+    "periodic_disk_revolve": ("l, cm, rd, wd, uf, ub, opt_0=None, opt_1d=None, mmax=None",
+        "params = revolver_parameters(wd, rd, uf, ub)\nparameters = dict(params)\nmx = parameters['mx']\none_read_disk = parameters['one_read_disk']\nfast = parameters['fast']\nif mmax is None:\n    if one_read_disk:\n        mmax = mxrr_close_formula(cm, uf, rd, wd)\n        if mx is None:\n            mx = mmax\n    else:\n        mmax = compute_mmax(params['cm'], params['wd'], params['rd'], params['uf'])\nif mx is not None:\n    mmax = max(mmax, mx) + 1\nif opt_0 is None:\n    opt_0 = get_opt_0_table(mmax, cm, params['uf'], params['ub'])\nif opt_1d is None and (not one_read_disk):\n    opt_1d = get_opt_1d_table(mmax, cm, ub, uf, rd, one_read_disk, opt_0=opt_0)\nsequence = Sequence(Function('Periodic-Disk-Revolve', l, cm), concat=parameters['concat'])\noperation = partial(Op, params=parameters)\nif mx is None:\n    if one_read_disk:\n        mx = mxrr_close_formula(cm, uf, rd, wd)\n    elif fast:\n        mx = mx_close_formula(cm, opt_0=opt_0, opt_1d=opt_1d, **parameters)\n    else:\n        mx = compute_mx(cm, opt_0=opt_0, opt_1d=opt_1d, **parameters)\nprint('We use periods of size ', mx)"),
 }
 REVOLVER_PARAMETERS = ("wd, rd, uf, ub",
                        "params = {'uf': uf, 'ub': ub, 'up': 1, 'wd': wd, 'rd': rd, 'mx': None, 'one_read_disk': True, 'fast': False, 'concat': 0, 'print_table': 'None'}\nreturn params")
@@ -1865,6 +1869,7 @@ SEQ_CALLS = {
     ("revolve", "revolve"): (["wd", "rd", "fwd_cost", "bwd_cost"], {"opt_0": "opt_0"}, "revolve_gen {fuel} opt_0 uf {a0} {a1}"),
     ("disk_revolve", "disk_revolve"): (["rd", "wd", "uf", "ub"], {"opt_0": "opt_0", "opt_1d": "opt_1d", "opt_inf": "opt_inf"}, "disk_revolve_gen {fuel} opt_0 opt_inf uf rd wd {a0} {a1}"),
     ("disk_revolve", "revolve"): (["rd", "wd", "uf", "ub"], {"opt_0": "opt_0"}, "revolve_gen {fuel} opt_0 uf {a0} {a1}"),
+    ("periodic_disk_revolve", "revolve"): (["rd", "wd", "uf", "ub"], {"opt_0": "opt_0"}, "revolve_gen {fuel} opt_0 uf {a0} {a1}"),
 }
 
 
@@ -1946,7 +1951,12 @@ class SeqTr:
         if len(e.args) != 2 + len(pos) or [ast.unparse(a) for a in e.args[2:]] != pos or {k.arg: ast.unparse(k.value) for k in e.keywords} != kws:
             raise Untranslatable("arguments of the call " + ast.unparse(e)[:120])
         a0, a1 = self.z(e.args[0], binds), self.z(e.args[1], binds)
-        fuel = "f" if e.func.id == self.fname else SEQ_FUEL[(self.fname, e.func.id)]
+        if e.func.id == self.fname:
+            fuel = "f"
+        else:
+            fuel = SEQ_FUEL.get((self.fname, e.func.id, ast.unparse(e.args[0])), SEQ_FUEL.get((self.fname, e.func.id)))
+            if fuel is None:
+                raise Untranslatable("no fuel policy for the call " + ast.unparse(e)[:100])
         x = self.fresh()
         binds.append("do %s <- %s;" % (x, fmt.format(fuel=fuel, a0=a0, a1=a1)))
         return "(%s %s)" % (post, x) if post else x
@@ -1970,6 +1980,8 @@ class SeqTr:
         if isinstance(s, ast.If):
             if isinstance(s.test, ast.Name) and s.test.id in self.consts:
                 return self.block((s.body if self.consts[s.test.id] else s.orelse) + rest, k)
+            if isinstance(s.test, ast.BoolOp) and isinstance(s.test.op, ast.Or) and isinstance(s.test.values[0], ast.Name) and self.consts.get(s.test.values[0].id) is True:
+                return self.block(s.body + rest, k)            # `True or X`: X is not evaluated
             binds = []
             c = self.cond(s.test, binds)
             kk = self.block(rest, k) if (rest or k is not None) else None
@@ -2008,6 +2020,30 @@ class SeqTr:
             if isinstance(v, ast.Call) and isinstance(v.func, ast.Name) and v.func.id == "argmin" and len(v.args) == 1 and isinstance(v.args[0], ast.Name) and v.args[0].id in self.names:
                 self.names[x] = x
                 return "do %s <- py_argmin %s; %s" % (x, self.names[v.args[0].id], self.block(rest, k))
+        if isinstance(s, ast.Assign) and len(s.targets) == 1 and isinstance(s.targets[0], ast.Name) and isinstance(s.value, ast.Constant) and type(s.value.value) is int \
+                and s.targets[0].id not in self.names:
+            self.names[s.targets[0].id] = s.targets[0].id
+            return "let %s := %d in %s" % (s.targets[0].id, s.value.value, self.block(rest, k))
+        if isinstance(s, ast.AugAssign) and isinstance(s.target, ast.Name) and s.target.id in getattr(self, "loopvars", ()) and isinstance(s.op, (ast.Add, ast.Sub)):
+            binds = []
+            v = self.z(s.value, binds)
+            if binds:
+                raise Untranslatable("augmented assignment " + ast.unparse(s))
+            return "let %s := %s %s %s in %s" % (s.target.id, s.target.id, "+" if isinstance(s.op, ast.Add) else "-", v, self.block(rest, k))
+        if isinstance(s, ast.While) and not s.orelse and self.fname in WHILE_FUEL:
+            vs = sorted({n.target.id for n in ast.walk(s) if isinstance(n, ast.AugAssign) and isinstance(n.target, ast.Name)})
+            if len(vs) != 1 or vs[0] not in self.names or any(isinstance(n, (ast.Break, ast.Continue, ast.Return)) for n in ast.walk(s)):
+                raise Untranslatable("while loop " + ast.unparse(s.test))
+            v = vs[0]
+            binds = []
+            c = self.cond(s.test, binds)
+            if binds:
+                raise Untranslatable("while condition " + ast.unparse(s.test))
+            self.loopvars = (v,)
+            body = self.block(s.body, "Ok (%s, sequence)" % v)
+            self.loopvars = ()
+            return "do st_ <- while_ %s (fun %s => %s) (fun %s sequence => %s) %s sequence; let %s := fst st_ in let sequence := snd st_ in %s" % (
+                WHILE_FUEL[self.fname], v, c, v, body, v, v, self.block(rest, k))
         if isinstance(s, ast.For) and not s.orelse and isinstance(s.target, ast.Name) and isinstance(s.iter, ast.Call) and isinstance(s.iter.func, ast.Name) \
                 and s.iter.func.id == "range" and len(s.iter.args) == 3 and ast.unparse(s.iter.args[2]) == "-1":
             binds = []
@@ -2052,17 +2088,187 @@ def _check_seq_env(repo):
         raise Untranslatable("utils.revolver_parameters is not the dictionary the translation assumes")
 
 
+# ---- hrevolve.py: hrevolve_aux / hrevolve_recurse (mutually recursive; costs are integers or +infinity: HRevSeq.cost) ----
+OPN2K = {"Read": "OR", "Write": "OW", "Discard": "OD", "Write_Forward": "OWF", "Discard_Forward": "ODF"}
+H_PREAMBLE = {
+    "hrevolve_aux": ("l, K, cmem, cvect, wvect, rvect, hoptp=None, hopt=None, **params",
+                     "uf = params['uf']\nub = params['ub']\nif hoptp is None or hopt is None:\n    hoptp, hopt = get_hopt_table(l, cvect, wvect, rvect, ub, uf)\n"
+                     "sequence = Sequence(Function('hrevolve_aux', l, [K, cmem]), levels=len(cvect), concat=params['concat'])\noperation = partial(Op, params=params)"),
+    "hrevolve_recurse": ("l, K, cmem, cvect, wvect, rvect, hoptp=None, hopt=None, **params",
+                         "parameters = dict(params)\nuf = params['uf']\nub = params['ub']\nif hoptp is None or hopt is None:\n    hoptp, hopt = get_hopt_table(l, cvect, wvect, rvect, ub, uf)\n"
+                         "sequence = Sequence(Function('HRevolve', l, [K, cmem]), levels=len(cvect), concat=parameters['concat'])\noperation = partial(Op, params=parameters)"),
+}
+H_TOP = ("l, cvect, wvect, rvect, fwd_cost, bwd_cost",
+         "params = revolver_parameters(wvect, rvect, fwd_cost, bwd_cost)\nh_rev = hrevolve_recurse(l, len(cvect) - 1, cvect[-1], cvect, wvect, rvect, hoptp=None, hopt=None, **params)\nreturn h_rev")
+H_CTOR = "cvec = (snapshots_in_ram, snapshots_on_disk)\nwc = [0, wd]\nrc = [0, rd]\nschedule = list(hrevolve(max_n - 1, cvec, wc, rc, uf, ub))\nsuper().__init__(max_n, snapshots_in_ram, snapshots_on_disk, schedule)"
+H_LAST = ["aux = sequence", "while aux.type == 'Function':\n    aux = aux.sequence[-1]"]      # followed by: if aux.type != 'Discard': sequence.insert(operation('Discard', [0, 0]))
+
+
+class HSeqTr(SeqTr):
+    VEC = {"cvect": "cvec", "wvect": "wvec", "rvect": "rvec"}
+
+    def is_cost(self, e):
+        return any(isinstance(n, ast.Name) and n.id in ("hopt", "hoptp", "list_mem") for n in ast.walk(e))
+
+    def z(self, e, binds):
+        if isinstance(e, ast.Subscript) and isinstance(e.value, ast.Name) and e.value.id in self.VEC:
+            return "(%s p %s)" % (self.VEC[e.value.id], self.z(e.slice, binds))
+        if isinstance(e, ast.Name) and e.id == "uf":
+            return "(ufv p)"
+        return SeqTr.z(self, e, binds)
+
+    def c(self, e, binds):
+        """a cost-valued expression"""
+        if isinstance(e, ast.BinOp) and isinstance(e.op, ast.Add):
+            a = self.c(e.left, binds)
+            b = self.c(e.right, binds)
+            return "(cadd %s %s)" % (a, b)
+        if isinstance(e, ast.Subscript) and isinstance(e.value, ast.Subscript) and isinstance(e.value.value, ast.Subscript) and isinstance(e.value.value.value, ast.Name) \
+                and e.value.value.value.id in ("hopt", "hoptp"):
+            k, a, b = self.z(e.value.value.slice, binds), self.z(e.value.slice, binds), self.z(e.slice, binds)
+            x = self.fresh()
+            binds.append("do %s <- get (%s T %s) %s %s;" % (x, e.value.value.value.id, k, a, b))
+            return x
+        if isinstance(e, ast.Call) and isinstance(e.func, ast.Name) and e.func.id == "min" and len(e.args) == 1 and not e.keywords and isinstance(e.args[0], ast.Name) and e.args[0].id in self.names:
+            x = self.fresh()
+            binds.append("do %s <- py_cmin %s;" % (x, self.names[e.args[0].id]))
+            return x
+        if self.is_cost(e):
+            raise Untranslatable("cost expression " + ast.dump(e)[:100])
+        return "(Fin %s)" % self.z(e, binds)
+
+    def cond(self, e, binds):
+        if isinstance(e, ast.BoolOp) and isinstance(e.op, ast.And) and len(e.values) == 2:
+            a = self.cond(e.values[0], binds)
+            n = len(binds)
+            b = self.cond(e.values[1], binds)
+            if len(binds) != n:
+                raise Untranslatable("a table read in the right operand of `and`")
+            return "(%s && %s)" % (a, b)
+        if isinstance(e, ast.Compare) and len(e.ops) == 1 and isinstance(e.ops[0], ast.Lt) and (self.is_cost(e.left) or self.is_cost(e.comparators[0])):
+            a = self.c(e.left, binds)
+            b = self.c(e.comparators[0], binds)
+            return "clt %s %s" % (a, b)
+        return SeqTr.cond(self, e, binds)
+
+    def operation(self, e, binds):
+        if isinstance(e, ast.Call) and isinstance(e.func, ast.Name) and e.func.id == "operation" and len(e.args) == 2 and not e.keywords \
+                and isinstance(e.args[0], ast.Constant) and e.args[0].value in OPN2K and isinstance(e.args[1], ast.List) and len(e.args[1].elts) == 2:
+            return "%s %s %s" % (OPN2K[e.args[0].value], self.z(e.args[1].elts[0], binds), self.z(e.args[1].elts[1], binds))
+        if isinstance(e, ast.Call) and len(e.args) == 2 and isinstance(e.args[0], ast.Constant) and e.args[0].value in OPN1:
+            raise Untranslatable("operation " + ast.dump(e)[:80])
+        return SeqTr.operation(self, e, binds)
+
+    def call(self, e, binds):
+        post = None
+        if isinstance(e, ast.Call) and isinstance(e.func, ast.Attribute) and e.func.attr == "shift" and len(e.args) == 1 and not e.keywords:
+            post = "shift %s" % self.z(e.args[0], binds)
+            e = e.func.value
+        if not (isinstance(e, ast.Call) and isinstance(e.func, ast.Name) and e.func.id in ("hrevolve_aux", "hrevolve_recurse") and len(e.args) == 6
+                and [ast.unparse(a) for a in e.args[3:]] == ["cvect", "wvect", "rvect"]
+                and [(k.arg, ast.unparse(k.value)) for k in e.keywords] in ([("hoptp", "hoptp"), ("hopt", "hopt"), (None, "params")], [("hoptp", "hoptp"), ("hopt", "hopt"), (None, "parameters")])):
+            raise Untranslatable("sequence expression " + ast.unparse(e)[:120])
+        if [k.value.id for k in e.keywords if k.arg is None] != [self.kwname]:
+            raise Untranslatable("keyword parameters passed on: " + ast.unparse(e)[:120])
+        a = [self.z(x, binds) for x in e.args[:3]]
+        x = self.fresh()
+        binds.append("do %s <- %s f p T %s %s %s;" % (x, {"hrevolve_aux": "aux_gen", "hrevolve_recurse": "recurse_gen"}[e.func.id], a[0], a[1], a[2]))
+        return "(%s %s)" % (post, x) if post else x
+
+    def block(self, stmts, k):
+        # the test "the sequence built so far ends with a Discard" (walks down the nested Function objects to the last operation)
+        if len(stmts) >= 3 and [ast.unparse(x) for x in stmts[:2]] == H_LAST and ast.unparse(stmts[2]) == "if aux.type != 'Discard':\n    sequence.insert(operation('Discard', [0, 0]))":
+            return "let sequence := if is_discard (last_op sequence) then sequence else sequence ++ [OD 0 0] in " + self.block(stmts[3:], k)
+        if stmts and isinstance(stmts[0], ast.Assign) and len(stmts[0].targets) == 1 and isinstance(stmts[0].targets[0], ast.Name) and isinstance(stmts[0].value, ast.ListComp):
+            s, v = stmts[0], stmts[0].value
+            if len(v.generators) == 1 and not v.generators[0].ifs and isinstance(v.generators[0].target, ast.Name) and ast.unparse(v.generators[0].iter).startswith("range(") \
+                    and len(v.generators[0].iter.args) == 2:
+                j, x = v.generators[0].target.id, s.targets[0].id
+                binds = []
+                lo, hi = self.z(v.generators[0].iter.args[0], binds), self.z(v.generators[0].iter.args[1], binds)
+                if binds:
+                    raise Untranslatable("range bounds " + ast.unparse(v))
+                self.names[j] = j
+                inner = []
+                body = self.c(v.elt, inner)
+                del self.names[j]
+                self.names[x] = x
+                return "do %s <- map_res (fun %s => %s Ok %s) (zrange %s %s); %s" % (x, j, " ".join(inner), body, lo, hi, self.block(stmts[1:], k))
+        if stmts and isinstance(stmts[0], ast.Assign) and isinstance(stmts[0].value, ast.Call) and isinstance(stmts[0].value.func, ast.Name) and stmts[0].value.func.id == "argmin" \
+                and len(stmts[0].value.args) == 1 and isinstance(stmts[0].value.args[0], ast.Name) and stmts[0].value.args[0].id in self.names and isinstance(stmts[0].targets[0], ast.Name):
+            x = stmts[0].targets[0].id
+            self.names[x] = x
+            return "do %s <- py_cargmin %s; %s" % (x, self.names[stmts[0].value.args[0].id], self.block(stmts[1:], k))
+        return SeqTr.block(self, stmts, k)
+
+
+def _h_function(tree, fname):
+    fns = [n for n in tree.body if isinstance(n, ast.FunctionDef) and n.name == fname]
+    if len(fns) != 1 or fns[0].decorator_list:
+        raise Untranslatable("def %s in hrevolve_sequences/hrevolve.py" % fname)
+    f = fns[0]
+    body = _strip_doc(f.body)
+    pre_args, pre_text = H_PREAMBLE[fname]
+    n = len(pre_text.split("\n"))
+    k, acc = 0, []
+    while k < len(body) and len("\n".join(acc).split("\n")) < n:
+        acc.append(ast.unparse(body[k]))
+        k += 1
+    if ast.unparse(f.args) != pre_args or "\n".join(acc) != pre_text:
+        raise Untranslatable("%s: signature / preamble is not the one the translation assumes" % fname)
+    return body[k:]
+
+
+def gen_hseq(repo):
+    _check_seq_env(repo)
+    tree = ast.parse(open(os.path.join(repo, "checkpoint_schedules", "hrevolve_sequences", "hrevolve.py")).read())
+    top = [n for n in tree.body if isinstance(n, ast.FunctionDef) and n.name == "hrevolve"]
+    if len(top) != 1 or (ast.unparse(top[0].args), "\n".join(ast.unparse(x) for x in _strip_doc(top[0].body))) != H_TOP:
+        raise Untranslatable("hrevolve() is not the top-level call the model mirrors")
+    cl = ast.parse(open(os.path.join(repo, "checkpoint_schedules", "hrevolve.py")).read())
+    hc = [c for c in cl.body if isinstance(c, ast.ClassDef) and c.name == "HRevolve"]
+    init = _methods(hc[0]).get("__init__") if len(hc) == 1 else None
+    if init is None or ast.unparse(init.args) != "self, max_n, snapshots_in_ram, snapshots_on_disk, uf=1, ub=1, wd=2, rd=2" or "\n".join(ast.unparse(x) for x in _strip_doc(init.body)) != H_CTOR:
+        raise Untranslatable("HRevolve.__init__ is not the call of hrevolve() the model mirrors")
+    ta = HSeqTr("hrevolve_aux", {"l": "l", "K": "K", "cmem": "cmem"}, {})
+    ta.kwname = "params"
+    ax = ta.block(_h_function(tree, "hrevolve_aux"), None)
+    tr = HSeqTr("hrevolve_recurse", {"l": "l", "K": "K", "cmem": "cmem"}, {})
+    tr.kwname = "parameters"
+    rc = tr.block(_h_function(tree, "hrevolve_recurse"), None)
+    return "\n".join(["(* GENERATED by harness/translate.py from checkpoint_schedules/hrevolve_sequences/hrevolve.py (hrevolve_aux, hrevolve_recurse) -- do not edit *)",
+                      "From Coq Require Import ZArith List Bool.", "From CS Require Import Actions Ops HRevSeq SeqGenSpec HSeqGenSpec.", "Import ListNotations.", "Open Scope Z_scope.", "",
+                      "Fixpoint aux_gen (fuel : nat) (p : hp) (T : tabs) (l K cmem : Z) {struct fuel} : res (list op) :=", "  match fuel with O => Err OutOfFuel | S f =>",
+                      "  let sequence : list op := [] in", "  " + ax, "  end",
+                      "with recurse_gen (fuel : nat) (p : hp) (T : tabs) (l K cmem : Z) {struct fuel} : res (list op) :=", "  match fuel with O => Err OutOfFuel | S f =>",
+                      "  let sequence : list op := [] in", "  " + rc, "  end.", "",
+                      "Lemma aux_gen_is_shape : aux_gen = aux_shape.", "Proof. reflexivity. Qed.",
+                      "Lemma recurse_gen_is_shape : recurse_gen = recurse_shape.", "Proof. reflexivity. Qed.",
+                      "Lemma recurse_gen_is_model : forall fuel p T l K cmem, 0 <= l -> recurse_gen fuel p T l K cmem = HRevSeq.recurse fuel p T l K cmem.",
+                      "Proof. rewrite recurse_gen_is_shape. exact recurse_shape_is_model. Qed.", ""]) + "\n"
+
+
+GENERATORS["HSeqGen"] = gen_hseq
+
+
 def gen_seq(repo):
     _check_seq_env(repo)
     rv = SeqTr("revolve", {"l": "l", "cm": "cm", "opt_0": "opt_0", "parameters.uf": "uf"}, {}).block(_seq_function(repo, "revolve", "revolve"), None)
     dk = SeqTr("disk_revolve", {"l": "l", "cm": "cm", "opt_0": "opt_0", "opt_inf": "opt_inf", "uf": "uf", "rd": "rd", "wd": "wd"}, {"one_read_disk": True}).block(
         _seq_function(repo, "disk_revolve", "disk_revolve"), None)
-    return "\n".join(["(* GENERATED by harness/translate.py from checkpoint_schedules/hrevolve_sequences/{revolve,disk_revolve}.py -- do not edit *)",
+    pr = SeqTr("periodic_disk_revolve", {"l": "l", "cm": "cm", "opt_0": "opt_0", "uf": "uf", "mx": "mx"}, {"one_read_disk": True}).block(
+        _seq_function(repo, "periodic_disk_revolve", "periodic_disk_revolve"), None)
+    return "\n".join(["(* GENERATED by harness/translate.py from checkpoint_schedules/hrevolve_sequences/{revolve,disk_revolve,periodic_disk_revolve}.py -- do not edit *)",
                       "From Coq Require Import ZArith List Bool.", "From CS Require Import Actions Ops RevSeq SeqGenSpec.", "Import ListNotations.", "Open Scope Z_scope.", "",
                       "Fixpoint revolve_gen (fuel : nat) (opt_0 : list (list Z)) (uf l cm : Z) : res (list op) :=", "  match fuel with O => Err OutOfFuel | S f =>",
                       "  let sequence : list op := [] in", "  " + rv, "  end.", "",
                       "Fixpoint disk_revolve_gen (fuel : nat) (opt_0 : list (list Z)) (opt_inf : list Z) (uf rd wd l cm : Z) : res (list op) :=", "  match fuel with O => Err OutOfFuel | S f =>",
                       "  let sequence : list op := [] in", "  " + dk, "  end.", "",
+                      "Definition periodic_gen (opt_0 : list (list Z)) (uf mx l cm : Z) : res (list op) :=",
+                      "  let sequence : list op := [] in", "  " + pr + ".", "",
+                      "Lemma periodic_gen_is_shape : periodic_gen = periodic_shape.", "Proof. reflexivity. Qed.",
+                      "Lemma periodic_gen_is_model : forall opt_0 uf mx l cm, 1 <= mx -> 0 <= l -> periodic_gen opt_0 uf mx l cm = periodic_body opt_0 uf mx l cm.",
+                      "Proof. rewrite periodic_gen_is_shape. exact periodic_shape_is_model. Qed.",
                       "Lemma revolve_gen_is_shape : revolve_gen = revolve_shape.", "Proof. reflexivity. Qed.",
                       "Lemma disk_revolve_gen_is_shape : disk_revolve_gen = disk_revolve_shape.", "Proof. reflexivity. Qed.",
                       "Lemma revolve_gen_is_model : forall fuel opt_0 uf l cm, revolve_gen fuel opt_0 uf l cm = RevSeq.revolve fuel opt_0 uf l cm.",
